@@ -746,7 +746,11 @@ def check_types(
         """
 
         # Check for an '*args'-like argument
-        if len(arguments) > len(named_arguments):
+        if any(
+            param.kind is inspect.Parameter.VAR_POSITIONAL
+            and name in named_arguments
+            for name, param in sig.parameters.items()
+        ):
             (
                 star_args_name,
                 star_args_values,
